@@ -42,16 +42,34 @@ def field_names(t):
     return sorted(f[0] for f in t[1])
 
 
+def outside_tagged(t, wit):
+    """The struct value wit is certainly no member of the tagged union t: its tag names no variant, or its other
+    fields are not that variant's fields (by name)."""
+    tagf = t[1]
+    fields = {kv[0][1][0]: kv[1] for kv in wit[1]}
+    if tagf not in fields or fields[tagf][0] != "cn" or len(fields[tagf][1]) != 1:
+        return True
+    for v in t[2]:
+        if v[0] == fields[tagf][1][0]:
+            required = sorted(f[0] for f in v[1] if not f[2])
+            allowed = sorted(f[0] for f in v[1])
+            others = sorted(k for k in fields if k != tagf)
+            return not (all(k in allowed for k in others) and all(k in others for k in required))
+    return True
+
+
 def attribute(tr, m, open_ids, unsound_pairs):
     """Known-finding attribution for one rejected conformance / bound."""
     if m["kind"] == "UNSOUND_CONFORMANCE":
         S, T = tr[m["i"]], tr[m["j"]]
         s, t = S["type"], T["type"]
         wit = json.loads(m["extra"])["c"] if m["extra"] != "null" else None
-        if "F7b" in open_ids and s[0] == "tstruct" and t[0] == "tstruct" and wit and wit[0] == "struct":
+        if "F7b" in open_ids and s[0] in ("tstruct", "ttagged") and t[0] == "tstruct" and wit and wit[0] == "struct":
             wnames = sorted(kv[0][1][0] for kv in wit[1])
             if wnames != field_names(t):
                 return "F7b struct conformance is width subtyping but membership demands exactly the declared fields, e.g. %s <: %s with %s" % (S["text"], T["text"], json.dumps(wit))
+        if "F61" in open_ids and t[0] == "ttagged" and s[0] in ("tstruct", "ttagged") and wit and wit[0] == "struct" and any(kv[0][1] == [t[1]] for kv in wit[1]) and outside_tagged(t, wit):
+            return "F61 conformance to a tagged union reads the tag field as /name: a struct type with the tag field conforms whatever its tag and fields, e.g. %s <: %s with %s" % (S["text"], T["text"], json.dumps(wit))
         if "F7c" in open_ids and s[0] == "tmap" and t[0] == "tmap":
             # key types conform only contravariantly
             def idx_of(ty):
